@@ -1,6 +1,7 @@
 """C03 — every written XML scenario file is valid against the shipped CommonRoad 2020a XSD (and the reader accepts it).
 
-model     lean/CRModel/XsdModel.lean (validator), lean/Gen/XsdScenario.lean (schema term, regenerated from the XSD by
+model     lean/CRModel/CRXmlWDoc.lean (complete tree encoders), lean/CRModel/CRXmlWOk.lean (decidable "schema-expressible"),
+          lean/CRModel/XsdModel.lean (validator), lean/Gen/XsdScenario.lean (schema term, regenerated from the XSD by
           harness/translate/xsd.py on every run), lean/CRModel/XmlNum.lean (number formatters), lean/CRModel/CRXml.lean
           (node builders as child-name sequences)
 theorems  lean/CRProps/C03.lean
